@@ -70,6 +70,10 @@ struct GateState {
 #[derive(Default)]
 pub struct State {
     pub files: HashMap<PathBuf, Arc<Vec<u8>>>,
+    /// incarnation number of each existing file: a writer whose file was unlinked (and possibly
+    /// re-created) must not resurrect or overwrite it (POSIX: it writes to the unlinked inode)
+    inos: HashMap<PathBuf, u64>,
+    next_ino: u64,
     pub log: Vec<Op>,
     pub log_enabled: bool,
     pub log_payloads: bool,
@@ -285,7 +289,17 @@ impl SimDir {
 struct SimWriter {
     dir: SimDir,
     path: PathBuf,
+    ino: u64,
     data: Vec<u8>,
+}
+impl SimWriter {
+    fn publish(&mut self, take: bool) {
+        let mut st = self.dir.st.lock().unwrap();
+        if st.inos.get(&self.path) == Some(&self.ino) {
+            let data = if take { std::mem::take(&mut self.data) } else { self.data.clone() };
+            st.files.insert(self.path.clone(), Arc::new(data));
+        }
+    }
 }
 impl Write for SimWriter {
     fn write(&mut self, buf: &[u8]) -> io::Result<usize> {
@@ -295,14 +309,14 @@ impl Write for SimWriter {
     }
     fn flush(&mut self) -> io::Result<()> {
         self.dir.op(K::Flush, &self.path, None)?;
-        self.dir.st.lock().unwrap().files.insert(self.path.clone(), Arc::new(self.data.clone()));
+        self.publish(false);
         Ok(())
     }
 }
 impl TerminatingWrite for SimWriter {
     fn terminate_ref(&mut self, _: AntiCallToken) -> io::Result<()> {
         self.dir.op(K::Terminate, &self.path, None)?;
-        self.dir.st.lock().unwrap().files.insert(self.path.clone(), Arc::new(std::mem::take(&mut self.data)));
+        self.publish(true);
         Ok(())
     }
 }
@@ -319,7 +333,11 @@ impl Directory for SimDir {
             return Err(DeleteError::FileDoesNotExist(path.to_path_buf()));
         }
         self.op(K::Delete, path, None).map_err(|e| DeleteError::IoError { io_error: Arc::new(e), filepath: path.to_path_buf() })?;
-        self.st.lock().unwrap().files.remove(path);
+        {
+            let mut st = self.st.lock().unwrap();
+            st.files.remove(path);
+            st.inos.remove(path);
+        }
         Ok(())
     }
     fn exists(&self, path: &Path) -> Result<bool, OpenReadError> {
@@ -327,18 +345,24 @@ impl Directory for SimDir {
         Ok(self.st.lock().unwrap().files.contains_key(path))
     }
     fn open_write(&self, path: &Path) -> Result<WritePtr, OpenWriteError> {
+        let ino;
         {
             let mut st = self.st.lock().unwrap();
             if st.files.contains_key(path) {
                 return Err(OpenWriteError::FileAlreadyExists(path.to_path_buf()));
             }
             st.files.insert(path.to_path_buf(), Arc::new(Vec::new()));
+            st.next_ino += 1;
+            ino = st.next_ino;
+            st.inos.insert(path.to_path_buf(), ino);
         }
         if let Err(e) = self.op(K::Create, path, None) {
-            self.st.lock().unwrap().files.remove(path);
+            let mut st = self.st.lock().unwrap();
+            st.files.remove(path);
+            st.inos.remove(path);
             return Err(OpenWriteError::wrap_io_error(e, path.to_path_buf()));
         }
-        Ok(BufWriter::new(Box::new(SimWriter { dir: self.clone(), path: path.to_path_buf(), data: Vec::new() })))
+        Ok(BufWriter::new(Box::new(SimWriter { dir: self.clone(), path: path.to_path_buf(), ino, data: Vec::new() })))
     }
     fn atomic_read(&self, path: &Path) -> Result<Vec<u8>, OpenReadError> {
         if !self.st.lock().unwrap().files.contains_key(path) {
@@ -350,7 +374,13 @@ impl Directory for SimDir {
     }
     fn atomic_write(&self, path: &Path, data: &[u8]) -> io::Result<()> {
         self.op(K::AtomicWrite, path, Some(data))?;
-        self.st.lock().unwrap().files.insert(path.to_path_buf(), Arc::new(data.to_vec()));
+        {
+            let mut st = self.st.lock().unwrap();
+            st.files.insert(path.to_path_buf(), Arc::new(data.to_vec()));
+            st.next_ino += 1;
+            let ino = st.next_ino;
+            st.inos.insert(path.to_path_buf(), ino);
+        }
         if path == Path::new("meta.json") {
             drop(self.watch.broadcast());
         }
